@@ -10,6 +10,27 @@ COMMON_TRUSTED = [
 NOT_APPLICABLE = {}
 
 PROPS = {
+    "C06": dict(
+        level_text="Proof (partial): the lexer (engine/lexer.go, whole file), the reader (engine/parser.go: Pratt parser, integer(), float()) and the writer (Atom/Integer/Float/Variable.WriteTerm, WriteCompound with all operator cases) are modelled in Lean. Kernel-checked for ALL inputs: termination of tokenisation and soundness of the 4-slot rune ring buffer (C06_token_progress, C06_ring_sound, C06_tokens_terminate), the atom round trip (C06_atom_roundtrip: unquote after quote is the identity, the lexer accepts whatever quote emits as one quoted token, an atom written unquoted lexes as the name token with that text), the integer round trip over all 64-bit integers (C06_integer_roundtrip), the shape of float texts (C06_float_text_shape). Operator notation (writeq with a non-empty operator context) and float bits are not proved; they are checked by the property's own oracle on the real interpreter (c06.terms, c06.numbers: write to a stream, read back with the same table, compare) and by model/implementation correspondence of text and read-back term.",
+        level_note="Trusted: Lean kernel; the hand-written models (checked by c06.lex / c06.atoms / c06.numbers / c06.terms, not proved); Unicode character classes as an oracle parameter (theorems hold for every oracle; the driver uses the tables regenerated from Go's package unicode); strconv.FormatFloat/ParseFloat round trip (library law, checked per case against an exact rational conversion); char_conversion never reaches the lexer (Lexer.charConversions is only set by tests) - round-trip theorems assume the identity conversion.",
+        technique="Lean 4: Hoare-style specifications of every lexer function (ring-buffer credit invariant, consumption accounting, fuel adequacy), structural induction over atom texts / digit strings / terms, model/implementation correspondence, property oracle on the real reader and writer",
+        lean_module="PrologVerif.Properties.C06",
+        ns="PrologVerif.C06",
+        streams=[dict(name="c06.lex", quick=4000, thorough=40000),
+                 dict(name="c06.atoms", quick=3000, thorough=40000),
+                 dict(name="c06.numbers", quick=6000, thorough=80000),
+                 dict(name="c06.terms", quick=6000, thorough=80000)],
+        rule="c06.lex: exhaustive code points < 0x250 and a class-covering set, all pairs over a 40-character alphabet (thorough: all triples over 18), token-shaped fragments with suffixes, random texts over all of Unicode; non-trivial = at least two tokens or an invalid/quoted/float/double-quoted token. c06.atoms: the same scopes as atom texts plus a word list and random texts; non-trivial = the atom needs quotes or has at least two characters. c06.numbers: boundary grid and random 64-bit integers, floats from random bits / subnormals / powers of two and ten +-3 ulp / short decimals / extremes, decimal texts at and next to exact midpoints of adjacent floats, literals in all bases around 2^63 and 2^64; non-trivial = the text denotes a number. c06.terms: random terms (depth <= 5) over atoms of every lexical class, operators of the current table as atoms/functors, negative numbers, -0.0, lists, partial lists, curly terms, variables x 0..4 random op/3 directives (any specifier, 16 priorities, 32 names incl. ',' '|' [] {} e E) x double_quotes in {codes, chars, atom} x {writeq, write_canonical, write_term quoted(true)}; '$VAR'(N) only under write_canonical; non-trivial = the text contains a quoted atom or the term has a compound written in operator notation; distinct = distinct case text",
+        trusted=[
+            "modelled (hand-written, correspondence-checked): engine/lexer.go (all of it), engine/parser.go Parser.Term/term/prefix/infix/op/term0/term0Atom/variable/openClose/atom/name/list/curlyBracketedTerm/functionalNotation/arg/number, integer, float, unquote/unDoubleQuote/validEscapeSequences, tokenRingBuffer; engine/atom.go Atom.WriteTerm/needQuoted/quote/quotedIdentEscape/letterDigit/graphic; engine/integer.go, float.go, variable.go WriteTerm; engine/compound.go WriteCompound and all writeCompound* functions",
+            "regenerated from source on every run: Unicode classes (Ll|Lo|Lm, IsUpper, IsSpace, ToUpper-hex) for all code points >= 0x80 from the Go toolchain's package unicode (Generated/Unicode.lean); the default operator table from bootstrap.pl (Generated/Bootstrap.lean)",
+            "parameters (not modelled): strconv.FormatFloat(f,'g',-1,64) digits (taken from the implementation's line, checked to denote the float by exact rational arithmetic in Model/FloatDec.lean); variable names _<n> (taken from the written text in order of first occurrence)",
+            "not modelled: max_depth, cyclic terms (visited), variable_names, placeholders of Parser; streams and read_term's option handling (observed through the harness only)",
+        ],
+        modelled={"hand_modelled": ["Lexer.Token and all lexer methods", "runeRingBuffer (ghost)", "Parser.Term and all parser methods", "integer", "float", "unquote", "validEscapeSequences", "Atom.WriteTerm", "needQuoted", "quote", "Integer.WriteTerm", "Float.WriteTerm", "Variable.WriteTerm", "WriteCompound", "writeCompoundOpPrefix/Postfix/Infix", "writeCompoundList", "writeCompoundCurlyBracketed", "writeCompoundFunctionalNotation"],
+                  "regenerated": ["unicode tables", "bootstrap.pl op/3 directives"], "observed_only": ["write_term/3 option parsing", "read_term/3", "number_codes/2", "number_chars/2", "strconv.FormatFloat"]},
+        assumptions=["the lexer applies no char_conversion (Lexer.charConversions is never set by the engine outside tests)", "atom texts are valid UTF-8 (List Char)", "terms are finite trees; floats are finite (no NaN/Inf)"],
+    ),
     "C18": dict(
         level_text="Proof: the operator-table state machine (Op/validateOp/CurrentOp and the operators methods) is modelled in Lean; for ALL histories of op/3 calls with arbitrary argument terms the ISO invariant (C18_inv), atomicity of failed updates (C18_atomic), the exact effect of successful updates (C18_update_exact: latest wins, 0 removes, other classes kept) and exactness of current_op/3 (C18_current_op_exact) are kernel-checked theorems, the default table being regenerated from bootstrap.pl. The model is tied to the Go code by the c18.hist correspondence stream (impl vs model, plus an independent executable ISO specification as oracle, plus reader/writer probes).",
         level_note="Trusted: Lean kernel; the hand-written model of Op/validateOp/CurrentOp (checked by differential runs, not proved); harness canonicalisation; reader/writer use of the table is only probed, not modelled. Pattern variables of current_op/3 assumed pairwise distinct.",
